@@ -358,6 +358,10 @@ pub fn build(full_name: &str, level: u8) -> Option<Scenario> {
                 // leadership changes while uncommitted payload is outstanding
                 s.timeoutable = vec![1, 2];
                 s.clients_at = vec![1];
+                if n.contains("-inherit") {
+                    s.timeoutable = vec![2];
+                    s.clients_at = vec![1, 2];
+                }
             }
             s.prop_sizes = if flow { vec![0, 1, 3] } else { vec![1] };
             s.setcap_values = vec![0, 1, 3];
@@ -444,6 +448,13 @@ pub fn build(full_name: &str, level: u8) -> Option<Scenario> {
                     c.reorders = 0;
                     c.dups = 0;
                     c.drops = (l as u8).min(1);
+                    if n.contains("-inherit") {
+                        // node 2 takes over while a payload entry of node 1 is uncommitted,
+                        // then proposes itself
+                        c.timeouts = 1;
+                        c.props = 3;
+                        c.drops = 0;
+                    }
                 }
                 if mix {
                     c.props = 1 + (l as u8) / 2;
@@ -495,6 +506,13 @@ pub fn build(full_name: &str, level: u8) -> Option<Scenario> {
             } else {
                 s.prefix = vec![Action::Timeout(1), Action::Settle];
             }
+            if n.contains("-fasync") {
+                // follower 2 persists asynchronously; the leader removes node 3
+                s = Scenario::new(name, 3);
+                s.voters = vec![1, 2, 3];
+                s.nodes[1].mode = AppMode::Async;
+                s.cc_menu = vec![CcSpec::V1(1, 3)];
+            }
             if n.contains("-mix") {
                 // batched proposals: [normal, conf change] in one MsgPropose, leader applies lazily
                 s.mix_proposals = true;
@@ -504,7 +522,12 @@ pub fn build(full_name: &str, level: u8) -> Option<Scenario> {
                 }
                 s.timeoutable = vec![];
             }
-            if !n.contains("-rm1") && !n.contains("-mix") {
+            if n.contains("-fasync") {
+                s.prefix = vec![Action::Timeout(1), Action::Settle];
+                s.clients_at = vec![1];
+                s.timeoutable = vec![2];
+            }
+            if !n.contains("-rm1") && !n.contains("-mix") && !n.contains("-fasync") {
                 s.clients_at = vec![1, 2];
                 s.timeoutable = vec![1, 2, 3, 4];
             }
@@ -519,6 +542,7 @@ pub fn build(full_name: &str, level: u8) -> Option<Scenario> {
             let (ccs, props, to, crashes, mt, mi, xf, lazy) = match l {
                 0 | 1 if n.contains("-rm1") => (1, l as u8, 2, 0, 3, 6, 0, 1),
                 0 | 1 if n.contains("-mix") => (2, 1, 0, 0, 2, 7, 0, 1),
+                0 | 1 if n.contains("-fasync") => (1, l as u8, 1, 0, 3, 6, 0, 1),
                 0 => (1, 0, 0, 0, 2, 5, 0, 1),
                 1 => (1, 0, 0, 0, 2, 5, 0, 1),
                 2 => (1, 1, 1, 0, 3, 6, 0, 1),
@@ -555,6 +579,48 @@ pub fn build(full_name: &str, level: u8) -> Option<Scenario> {
                 Action::DropAll,
                 Action::Restart(3),
             ];
+            if n.contains("-fig8") {
+                // Figure-8 history plus a snapshot below the leader's commit index: node 3 holds
+                // its own uncommitted (2, term 2); node 1 (term 3) committed (2, term 1), (3, term 3)
+                // with node 2, applied only index 2 and compacted there
+                s.nodes[0].apply_lag = true;
+                s.prefix = vec![
+                    Action::Timeout(1),
+                    Action::Settle,
+                    Action::Propose(1, 0),
+                    Action::Settle0(1),
+                    Action::DropAll,
+                    Action::Timeout(3),
+                    Action::Settle0(3),
+                    Action::Deliver(3, 2),
+                    Action::Settle0(2),
+                    Action::Deliver(3, 1),
+                    Action::Settle0(1),
+                    Action::Deliver(2, 3),
+                    Action::Settle0(3),
+                    Action::DropAll,
+                    Action::Timeout(1),
+                    Action::Settle0(1),
+                    Action::Deliver(1, 2),
+                    Action::Settle0(2),
+                    Action::Deliver(2, 1),
+                    Action::Settle0(1),
+                    Action::Isolate(3),
+                    Action::Deliver(1, 2),
+                    Action::Settle0(2),
+                    Action::Deliver(2, 1),
+                    Action::Settle0(1),
+                    Action::Isolate(3),
+                    Action::Deliver(1, 2),
+                    Action::Settle0(2),
+                    Action::Deliver(2, 1),
+                    Action::Ready(1, Cut::None),
+                    Action::Isolate(3),
+                    Action::ApplyNext(1),
+                    Action::Compact(1),
+                    Action::Isolate(3),
+                ];
+            }
             if n.contains("-joint") {
                 s = Scenario::new(name, 4);
                 s.voters = vec![1, 2, 3];
